@@ -15,7 +15,7 @@ MATRIX_FNS = ["matrix", "lemma_cell_sem", "lemma_cmp_rekey", "lemma_cell_missing
 
 FRAME_FNS = ["lemma_frame", "lemma_frame_group", "lemma_frame_match", "lemma_frame_leaf", "lemma_frame_cmp", "lemma_frame_row", "lemma_frame_rows", "lemma_frame_rows_all", "lemma_frame_rows_of", "lemma_frame_defined", "lemma_frame_elems", "lemma_agree_elem"]
 REWRITE_FNS = ["rewrite_search", "rewrite", "lemma_rw_refl", "lemma_rw_wf"]
-BATCH_FNS = ["batch", "seqtail", "shake_needles", "single_pattern", "classify_member", "entry_tail", "mapping_tail", "bool_value", "number_value", "lemma_ac_one", "lemma_kinds_push", "lemma_no_merged_push", "lemma_pairs_aligned", "lemma_pairs_any", "lemma_single_quant", "lemma_ac_search", "lemma_ac_member", "lemma_ac_any", "lemma_single_kind", "lemma_exact_empty", "lemma_any_ctx_push", "lemma_any_regex_push", "lemma_any_group_push", "lemma_any_ident_take", "lemma_group_ok_push"]
+BATCH_FNS = ["batch", "seqtail", "shake_needles", "single_pattern", "classify_member", "entry_tail", "mapping_tail", "bool_value", "number_value", "lemma_ac_one", "lemma_kinds_push", "lemma_no_merged_push", "lemma_rs_any", "lemma_pairs_aligned", "lemma_pairs_any", "lemma_single_quant", "lemma_ac_search", "lemma_ac_member", "lemma_ac_any", "lemma_single_kind", "lemma_exact_empty", "lemma_any_ctx_push", "lemma_any_regex_push", "lemma_any_group_push", "lemma_any_ident_take", "lemma_group_ok_push"]
 
 PROPS = {
     "C15": {
@@ -48,7 +48,8 @@ PROPS = {
     "C07": {
         "units": {"solver": ["search"], "identifier": ["into_identifier"], "batch": BATCH_FNS},
         "explanation": "search() equals the documented relation per kind over all strings (byte-level model of str); the Aho-Corasick arm is proved to accept exactly when some reported occurrence passes its start/end filter; the list-batching block of parse_mapping (src/parser.rs:1397-1566, verified as a slice: a function of its free variables) is proved to build searches that, taken together, match a string exactly when some member of the list matches it on its own - case-sensitive and case-insensitive needles in their own automata with context entry i naming needle i, a single case-sensitive needle as the plain std search, empty exact patterns kept out of the automata, regexes in their sets",
-        "assumptions": ["AhoCorasickBuilder / RegexSetBuilder are expression holes: the automaton is assumed to report (overlapping iteration) exactly the occurrences of its needles, ASCII-case-insensitively when built so (ac_of); the regex set rebuilt from the members' pattern texts is assumed to have the members' languages",
+        "assumptions": ["the AhoCorasickBuilder and RegexSetBuilder chains stay real code (new / ascii_case_insensitive / kind / case_insensitive modelled call by call); assumed on the libraries: build() succeeds, the automaton reports (overlapping iteration) exactly the occurrences of its needles under its flag (ac_of), member i of a regex set accepts what the regex built from pattern i with the set's flag accepts (rs_of), a Regex remembers its pattern text; the iterator expression that collects the pattern texts is a hole (regex_texts)",
+                        "batch slice: each regex member is assumed built from its own text with its own case flag (regex_from: what into_identifier does)",
                         "batch slice: the five input vectors are assumed to hold identifiers of their own kind (kinds_ok): the classification match directly above the slice, the Yaml walk and the single-string arm of parse_mapping are not under contract",
                         "UTF-8 encoding is injective (axiom)"],
     },
